@@ -90,7 +90,10 @@ public:
         T const err_all = result.error();
         T const rel_err_all = err_all / fabs(val_all);
 
-        bool const perform_more_iterations = rel_err_all > target_rel_err_;
+        // without a target (zero) never stop; with a target stop only if the precision is known to
+        // be reached - a relative error that is NaN (e.g. 0 / 0) is not a reason to stop
+        bool const perform_more_iterations = !((target_rel_err_ > T()) &&
+            (rel_err_all <= target_rel_err_));
 
         if ((mode_ == callback_mode::verbose) || (mode_ == callback_mode::verbose_and_write_chkpt))
         {
